@@ -42,7 +42,7 @@ def main() -> int:
                 missed += 1
             else:
                 for tier in (['quick', 'thorough'] if a.thorough_if_missed else ['quick']):
-                    env = dict(os.environ, VERIF_REPO=dst, VERIF_EVIDENCE_DIR=os.path.join(scratch, 'evidence'))
+                    env = dict(os.environ, VERIF_REPO=dst, VERIF_EVIDENCE_DIR=os.path.join(scratch, 'evidence'), VERIF_REPLAY_DIR=os.path.join(scratch, 'replays'))
                     rc = subprocess.run([os.path.join(VERIF, 'run'), prop, '--tier', tier], cwd=VERIF, env=env, capture_output=True, text=True)
                     keys = sorted({l.split('key=')[1].split(' ')[0] for l in rc.stdout.splitlines() if l.strip().startswith('key=')})
                     meta.setdefault('checks', {})[prop] = {'tier': tier, 'exit': rc.returncode, 'keys': keys[:12]}
